@@ -497,6 +497,44 @@ func groundInt(t *Term) (*big.Int, bool) {
 			return groundInt(t.Args[1])
 		}
 		return groundInt(t.Args[2])
+	case "band", "bor", "bxor", "bandnot", "bshr":
+		// int-mode bit operations on non-negative literals (their intended interpretation)
+		if len(t.Args) != 2 {
+			return nil, false
+		}
+		a, ok1 := groundInt(t.Args[0])
+		b, ok2 := groundInt(t.Args[1])
+		if !ok1 || !ok2 || a.Sign() < 0 || b.Sign() < 0 {
+			return nil, false
+		}
+		switch t.Op {
+		case "band":
+			return new(big.Int).And(a, b), true
+		case "bor":
+			return new(big.Int).Or(a, b), true
+		case "bxor":
+			return new(big.Int).Xor(a, b), true
+		case "bandnot":
+			return new(big.Int).AndNot(a, b), true
+		case "bshr":
+			if !b.IsInt64() || b.Int64() > 4096 {
+				return nil, false
+			}
+			return new(big.Int).Rsh(a, uint(b.Int64())), true
+		}
+	case "bshl":
+		// bshl(w, x, s): (x << s) truncated to w bits
+		if len(t.Args) != 3 {
+			return nil, false
+		}
+		w, ok0 := groundInt(t.Args[0])
+		a, ok1 := groundInt(t.Args[1])
+		b, ok2 := groundInt(t.Args[2])
+		if !ok0 || !ok1 || !ok2 || a.Sign() < 0 || b.Sign() < 0 || w.Sign() <= 0 || !b.IsInt64() || b.Int64() > 4096 || !w.IsInt64() || w.Int64() > 4096 {
+			return nil, false
+		}
+		r := new(big.Int).Lsh(a, uint(b.Int64()))
+		return r.And(r, new(big.Int).Sub(new(big.Int).Lsh(big.NewInt(1), uint(w.Int64())), big.NewInt(1))), true
 	}
 	return nil, false
 }
